@@ -69,6 +69,61 @@ type c11Env struct {
 	special  int
 }
 
+// c11AnySource finds the AnySource inside the source the RPC layer talks to (through the monitor wrapper, if any).
+func c11AnySource(d DataSource) *AnySource {
+	if w, ok := d.(*vMon); ok {
+		d = w.DataSource
+	}
+	switch s := d.(type) {
+	case *vScripted:
+		return &s.AnySource
+	case *TriangleSource:
+		return &s.AnySource
+	case *SimPulseSource:
+		return &s.AnySource
+	case *LanceroSource:
+		return &s.AnySource
+	case *ErroringSource:
+		return &s.AnySource
+	}
+	return nil
+}
+
+// settings returns every channel's configured trigger settings and record lengths (not the running search positions), read in the
+// core loop between two blocks like any queued request. "" when there is no running source to ask.
+func (e *c11Env) settings() string {
+	sc := e.sc
+	if !e.running || !sc.isSourceActive {
+		return ""
+	}
+	ds := c11AnySource(sc.ActiveSource)
+	if ds == nil {
+		return ""
+	}
+	out := make(chan string, 1)
+	f := func() {
+		var sb strings.Builder
+		for i, dsp := range ds.processors {
+			ts := dsp.TriggerState
+			fmt.Fprintf(&sb, "ch%d: len %d/%d auto %v %v %v level %v %v %v edge %v %v %v %v emt %v mode %v thr %v mono %v %v/%v zero %v | ", i, dsp.NSamples, dsp.NPresamples,
+				ts.AutoTrigger, ts.AutoDelay, ts.AutoVetoRange, ts.LevelTrigger, ts.LevelRising, ts.LevelLevel, ts.EdgeTrigger, ts.EdgeRising, ts.EdgeFalling, ts.EdgeLevel,
+				ts.EdgeMulti, ts.EMTState.mode, ts.EMTState.threshold, ts.EMTState.nmonotone, ts.EMTState.nsamp, ts.EMTState.npre, ts.EMTState.enableZeroThreshold)
+		}
+		out <- sb.String()
+	}
+	select {
+	case sc.queuedRequests <- f:
+		select {
+		case s := <-out:
+			return s
+		case <-time.After(5 * time.Second):
+			return ""
+		}
+	case <-time.After(time.Second):
+		return ""
+	}
+}
+
 // call runs one request under a watchdog.  returned=false means it is provably blocked.
 func (e *c11Env) call(name string, f func() error) (err error, verdict *vVerdict) {
 	done := make(chan error, 1)
@@ -492,7 +547,13 @@ func c11Run(c c11Case) (v vVerdict) {
 			if mustErr == "" && st.Trig != nil && !st.Trig.EMT {
 				mustOK = true
 			}
+			before := e.settings()
 			err, bad = e.call("ConfigureTriggers", func() error { var r bool; return sc.ConfigureTriggers(fts, &r) })
+			if bad == nil && err != nil && before != "" {
+				if after := e.settings(); after != "" && after != before {
+					return vFailf("refused-request-changed-settings", "step %d: ConfigureTriggers(%v, %+v) was refused (%v), yet the channels' settings changed from\n%s\nto\n%s", i, st.Chans, fts.TriggerState, err, before, after)
+				}
+			}
 		case "hostiletrig":
 			// extreme but well-formed trigger settings: accepted or refused, never fatal (N selects the variant)
 			ts := TriggerState{}
@@ -535,7 +596,13 @@ func c11Run(c c11Case) (v vVerdict) {
 			}
 			same := sc.status.Npresamp == st.Npre && sc.status.Nsamples == st.Nsamp
 			queued = !same
+			before := e.settings()
 			err, bad = e.call("ConfigurePulseLengths", func() error { var r bool; return sc.ConfigurePulseLengths(SizeObject{Nsamp: st.Nsamp, Npre: st.Npre}, &r) })
+			if bad == nil && err != nil && before != "" {
+				if after := e.settings(); after != "" && after != before {
+					return vFailf("refused-request-changed-settings", "step %d: ConfigurePulseLengths(%d, %d) was refused (%v), yet the channels' settings changed from\n%s\nto\n%s", i, st.Nsamp, st.Npre, err, before, after)
+				}
+			}
 			if err == nil && bad == nil && e.running && !same {
 				e.nsamp, e.npre = st.Nsamp, st.Npre
 			}
@@ -1008,6 +1075,25 @@ func c11Gen(t *rapid.T) c11Case {
 	}
 	if c.RealRPC && rapid.IntRange(0, 2).Draw(t, "startother") == 0 {
 		c.Steps = append(c.Steps, c11Step{Op: "startother"})
+	}
+	if c.Nchan >= 2 && c.Source != "erroring" && c.Source != "lancero" {
+		post := c.Nsamp - c.Npre
+		switch rapid.IntRange(0, 9).Draw(t, "mixedchannels") {
+		case 0:
+			// two edge-multi channels of different tolerance, then record lengths that only the first of them can work with:
+			// the request must be refused as a whole
+			if post >= 6 {
+				lax := vTrigCfg{EMT: true, EMTMode: 0, EMTLevel: 100, EMTNMono: 1, EMTNoZero: true}
+				strict := vTrigCfg{EMT: true, EMTMode: 0, EMTLevel: 100, EMTNMono: post, EMTNoZero: true}
+				c.Steps = append(c.Steps, c11Step{Op: "trig", Chans: []int{0}, Trig: &lax}, c11Step{Op: "trig", Chans: []int{1}, Trig: &strict},
+					c11Step{Op: "lengths", Nsamp: c.Npre + rapid.IntRange(2, post-1).Draw(t, "shortpost"), Npre: c.Npre})
+			}
+		case 1:
+			// projectors on the second channel, then variable-length edge-multi records for both channels in one request: a
+			// channel with projectors cannot have them, so nothing may change
+			vl := vTrigCfg{EMT: true, EMTMode: 1, EMTLevel: 100, EMTNMono: 1, EMTNoZero: true}
+			c.Steps = append(c.Steps, c11Step{Op: "proj", Src: 1, Kind: "valid"}, c11Step{Op: "trig", Chans: []int{0, 1}, Trig: &vl})
+		}
 	}
 	some("running", 2, 14)
 	switch rapid.IntRange(0, 3).Draw(t, "ending") {
